@@ -1,5 +1,5 @@
 """C11 Exclusive ownership of a database directory: lock-before-touch on all paths."""
-from .. import cfgutil, effects
+from .. import cfgutil, effects, flow
 from ..ctx import sem, sem_set
 from ..events import is_cas_class
 from .base import Rule, site_construct, site_where, stable_path
@@ -183,15 +183,24 @@ def rules(ctx, tier):
                 "%s is built at %d sites" % (hpath, len(ctor_sites)))
         if ctor_sites:
             cb = ctor_sites[0][0]
-            fl = [e for e in flocks if e.site.body.path == cb.path]
-            r.check(len(fl) == 1, "ctor-locks", cb, "the constructing body is the one that takes the lock",
+            # the aggregate is built only where the lock is known to have been taken successfully - by this body or by
+            # a helper it calls (must-happened-before with Ok-sensitivity)
+            must.summarize(cb)
+            IN = must.rel_in[cb.path]
+            ENTRY_open = must.entry_sets(ctx.open_roots())
+            base = ENTRY_open.get(cb.path)
+            locked = []
+            for (_, bb, _) in ctor_sites:
+                S = IN.get(bb)
+                have = set() if S is None or S is flow.ALL else set(S)
+                if base is not None and base is not flow.ALL:
+                    have |= set(base)       # what every call chain from an open entry point has done before
+                locked.append(S is not None and S is not flow.ALL and "FLOCK" in sem_set(have))
+            reach_lock = all(locked) or "FLOCK" in sem_set(e for e in ctx.may.all_events(cb.path) if ctx._concrete(e))
+            r.check(reach_lock, "ctor-locks", cb, "the constructing body is the one that takes the lock",
                     "the body that builds %s does not take the directory lock" % hpath)
-            # the aggregate is dominated by the Ok edge of the lock
-            if fl:
-                rf = must.rf(cb)
-                oks = rf.ok_edges_of(fl[0].site.bb)
-                dom = bool(oks) and all(cfgutil.edges_dominate(cb, oks, bb) for (_, bb, _) in ctor_sites)
-                r.check(dom, "ctor-after-lock", cb, "the handle is built only after the lock succeeded",
+            if reach_lock:
+                r.check(all(locked), "ctor-after-lock", cb, "the handle is built only after the lock succeeded",
                         "the handle can be built on a path where the lock did not succeed")
         # public functions that return something containing the handle reach the constructor
         prog = ctx.prog
